@@ -134,7 +134,8 @@ def run(tier, scratch, t0, replay=None):
             res.inconclusive.append("tables of %s: %s" % (K.vstr(v), err))
             continue
         refs[v] = K.read_jsonl(tf)[0]
-    hosts = [K.MAIN_HOST, (3, 8)] if tier == "quick" else sorted(K.available_hosts())
+    av = sorted(K.available_hosts())
+    hosts = sorted(set([K.MAIN_HOST, av[0], av[-1]])) if tier == "quick" else av  # oldest, main, newest host on every run
     dumps = {}
     for h in hosts:
         out, err, so, se = K.run_agent(h, "tables", {"versions": [list(v) for v in refs]}, scratch.root, "tables-h%d%d" % h)
